@@ -52,10 +52,25 @@ def gen_dump(rng):
         tids = tids[:-1] + [rng.choice((0xfedcba9876543210, (1 << 64) - 1, 123456789012))]
     undeclared = rng.choice((99, 99, 0xffffffffffffff00))
     programs = []
+    map_pids = [100 * (i + 1) if rng.random() < 0.8 else 4294967295 - i for i in range(len(tids))]
+
+    def stack_sample(tid, pid, with_thread_data):
+        nf = rng.randrange(1, 9)
+        nested = [H.thd_data(pid, tid)] if with_thread_data else []
+        nested += [H.stk_uhdr(rng.choice((1, 5, 0x15)), nf)] + \
+            [H.stk_udata([0x100000000 + 16 * j for j in range(q, min(q + 4, nf))]) for q in range(0, nf, 4)]
+        return H.sampler(0x8 | (1 if with_thread_data else 0), 3, nested)
+
     for k, tid in enumerate(tids + [undeclared]):
         keyspace = {'tid': tid, 'pid': 100 * (k + 1), 'sid': 1000 * (k + 1)}
         prog = []
-        for _ in range(rng.randrange(2, 5)):
+        if k < len(tids) and rng.random() < 0.4:
+            # sampled, its process renamed (same pid: an exec, or a new-thread record carrying another name), sampled again
+            prog += stack_sample(tid, map_pids[k], False)
+            prog += rng.choice((H.exec_pair(map_pids[k], rng.choice((b'execd', b'newimage')), rng.choice((H.NONE, H.ALL))),
+                                H.newthread_pair(tid, map_pids[k], b'renamed', rng.choice((H.NONE, H.ALL)))))
+            prog += stack_sample(tid, map_pids[k], rng.random() < 0.3)
+        for _ in range(rng.randrange(2, 7)):
             c = rng.random()
             if c < 0.2:      # a new-thread pair that (re-)maps a thread of this stream
                 target = rng.choice(tids + [undeclared, 555])
@@ -67,6 +82,9 @@ def gen_dump(rng):
                 prog += [H.A('TRACE_DATA_THREAD_TERMINATE_PID', H.NONE, (rng.choice((100, 200, 888)), 5, 0, 0))]
             elif c < 0.5:
                 prog += H.sampler(0x1, 3, [H.thd_data(rng.choice((100, 300, 999)), rng.choice(tids + [undeclared]))])
+            elif c < 0.62 and rng.random() < 0.5:
+                # a stack sample of the emitting thread (callstack lines), with or without its thread-data record
+                prog += stack_sample(tid, keyspace['pid'], rng.random() < 0.5)
             elif c < 0.62:
                 # records that name stream threads / pids but do NOT declare anything (must leave the tables alone)
                 prog += [rng.choice((
@@ -82,7 +100,7 @@ def gen_dump(rng):
     order = H.random_interleaving(rng, programs)
     all_tids = tids + [undeclared]
     events = H.materialize([(all_tids[t], programs[t][i]) for t, i in order], t0=0x100000001)
-    entries = [(tid, 100 * (i + 1) if rng.random() < 0.8 else 4294967295 - i,
+    entries = [(tid, map_pids[i],
                 rng.choice((b'launchd', b'Safari', b'caf\xc3\xa9', b'p', b'a-name-of-19-bytes!', b'\xe6\x97\xa5' * 6)), b'')
                for i, tid in enumerate(tids)]
     if rng.random() < 0.3:
@@ -293,6 +311,52 @@ def check_process_column(res, dump, cols_traces):
             return
 
 
+def check_callstack_columns(res, dump):
+    """Header line of every callstack: the thread-id column names the sampled thread, the process column the process
+    the dump declares for it when the sampler window closes."""
+    codes = ev.bundled_codes()
+    states, updating = table_states(dump)
+    case = {'file': dump['data'], 'kind': 'callstacks'}
+    try:
+        cs = list(front({}).callstacks(io.BytesIO(dump['data'])))
+        proc = [l.split('\n')[0] for l in front({'show_process': True}).formatted_callstacks(io.BytesIO(dump['data']))]
+        tidc = [l.split('\n')[0] for l in front({'show_tid': True}).formatted_callstacks(io.BytesIO(dump['data']))]
+    except Exception as x:
+        res.violation(f'c14-raises-{core.exc_name(x)}', f'callstacks: {x!r} at {core.short_tb(x)}', case)
+        return
+    if not (len(cs) == len(proc) == len(tidc)):
+        res.violation('c14-line-count', f'callstacks {len(cs)} vs formatted {len(proc)} / {len(tidc)}', case)
+        return
+    events = dump['events']
+    index = {e.timestamp: k for k, e in enumerate(events)}
+    tp0, pn0 = wire.threadmap_model(dump['entries'])
+    for c, pc, tc in zip(cs, proc, tidc):
+        k0 = index.get(c.timestamp)
+        if k0 is None or events[k0].tid != c.tid:
+            res.violation('c14-callstack-origin', f'callstack at {c.timestamp} of thread {c.tid} does not start at a record of '
+                          f'that thread', case)
+            return
+        k = next((j for j in range(k0 + 1, len(events)) if events[j].tid == c.tid and events[j].func_qualifier == 2
+                  and codes.get(events[j].eventid) == 'PERF_Event'), None)
+        if k is None:
+            continue
+        after = proc_text(*states[k], c.tid)
+        before = proc_text(*(states[k - 1] if k else (tp0, pn0)), c.tid)
+        res.count('callstack_headers_checked')
+        at_start = states[k0 - 1] if k0 else (tp0, pn0)
+        if proc_text(*at_start, c.tid) != proc_text(tp0, pn0, c.tid):
+            res.count('callstacks_of_threads_remapped_or_renamed_earlier')
+            if at_start[0].get(c.tid) == tp0.get(c.tid):
+                res.count('callstacks_of_threads_renamed_under_the_same_pid')
+        if tc.strip() != str(c.tid):
+            res.violation('c14-callstack-tid-column', f'thread column {tc!r} of a callstack of thread {c.tid}', case)
+            return
+        if pc not in (f'{after:<34}', f'{before:<34}'):
+            res.violation('c14-callstack-process-column', f'callstack of thread {c.tid} sampled at {hex(c.timestamp)}: process '
+                          f'column {pc!r}, the dump declares {after!r} when its sampler window closes', case)
+            return
+
+
 def check_logs(res, rng):
     """Log lines: colour never changes the text; a record that names its process and thread is shown under the
     process the dump declares for that thread (the record itself declares it)."""
@@ -342,7 +406,11 @@ def run(ctx):
         wall = i % 3 == 0
         check_composition(res, dump, 'kevents', KEVENT_SWITCHES, wall)
         r = check_composition(res, dump, 'traces', TRACE_SWITCHES, wall)
-        check_composition(res, dump, 'callstacks', TRACE_SWITCHES, wall)
+        r2 = check_composition(res, dump, 'callstacks', TRACE_SWITCHES, wall)
+        if r2 is not None:
+            res.count('callstack_lines', len(r2[1]))
+            if not wall:
+                check_callstack_columns(res, dump)
         if r is not None and not wall:
             check_process_column(res, dump, r[0])
         check_colour(res, dump)
@@ -362,6 +430,9 @@ def run(ctx):
     res.require('lines_of_threads_remapped_later', 1)
     res.require('colour_comparisons', 20)
     res.require('reused_object_requests', 20)
+    res.require('callstack_headers_checked', 10)
+    res.require('callstacks_of_threads_remapped_or_renamed_earlier', 1)
+    res.require('callstacks_of_threads_renamed_under_the_same_pid', 1)
     return res
 
 
